@@ -2,6 +2,8 @@ import PyPhysim.Proofs.C13Policy
 
 /-! # C13 — setter machines, PS7, Okumura–Hata, antenna gain (α = ℝ) -/
 set_option linter.unnecessarySeqFocus false
+set_option linter.unusedTactic false
+set_option linter.unreachableTactic false
 namespace PyPhysim.C13
 open PyPhysim.Proto
 
@@ -25,7 +27,7 @@ theorem fsRun_inv {s : GenState ℝ} (h : FsInv s) (ops : List (FsOp ℝ)) : FsI
 
 theorem fsCalcC_real (fc n : ℝ) :
     Gen.fsCalcC fc n = 10 * n * (Real.logb 10 (fc * 1000000) - 4.377911390697565) := by
-  simp only [Gen.fsCalcC, log10_real]; norm_num
+  simp only [Gen.fsCalcC, log10_real] <;> gen_nf
 
 /-- the last value written by each kind of setter is the one in force -/
 theorem fsRun_append_setN (s : GenState ℝ) (ops : List (FsOp ℝ)) (v : ℝ) :
@@ -40,12 +42,12 @@ theorem fsRun_append_setFc (s : GenState ℝ) (ops : List (FsOp ℝ)) (v : ℝ) 
 
 theorem ps7LosDb_real (fc d : ℝ) :
     Gen.ps7LosDb fc d = 18.7 * Real.logb 10 d + 46.8 + 20 * Real.logb 10 (fc / 1000 / 5) := by
-  simp only [Gen.ps7LosDb, log10_real]; norm_num
+  simp only [Gen.ps7LosDb, log10_real] <;> gen_nf
 
 theorem ps7NlosDb_real (fc d w : ℝ) :
     Gen.ps7NlosDb fc d w
       = 36.8 * Real.logb 10 d + 43.8 + 20 * Real.logb 10 (fc / 1000 / 5) + 5 * (w - 1) := by
-  simp only [Gen.ps7NlosDb, log10_real]; norm_num
+  simp only [Gen.ps7NlosDb, log10_real] <;> gen_nf
 
 theorem ps7_detDb_mono (s : Ps7State ℝ) (nw : Nat) {d₁ d₂ : ℝ} (h₁ : 0 < d₁) (h : d₁ ≤ d₂) :
     s.detDb nw d₁ ≤ s.detDb nw d₂ := by
@@ -133,7 +135,7 @@ theorem ohDb_real (fc hbs a K d : ℝ) :
     Gen.ohDb fc hbs a K d
       = 69.55 + 26.16 * Real.logb 10 fc - 13.82 * Real.logb 10 hbs - a
         + (44.9 - 6.55 * Real.logb 10 hbs) * Real.logb 10 d - K := by
-  simp only [Gen.ohDb, log10_real]
+  simp only [Gen.ohDb, log10_real] <;> gen_nf
 
 /-- the distance slope `44.9 − 6.55·log10(h_bs)` is positive on the whole admissible range -/
 theorem oh_slope_pos {hbs : ℝ} (h₀ : 30 ≤ hbs) (h₁ : hbs ≤ 200) :
